@@ -1,7 +1,7 @@
 (* Extract/Cmd_c17.v — observation commands of property C17 (model side).
      val <ord> <tree>   ord = `s` (toml::Map = BTreeMap) | `i` (IndexMap, insertion order = order given)
        tree  := value, ASCII:  value := 'L' desc ';' | 'A' value* ']' | 'T' ( 'K' hexkey ';' value )* '}'
-       prints  vdoc=<doc> pdoc=<doc> tdoc=<doc> sdoc=<doc> vdisp=<shape> rb=<value> fix=.. pp=.. dec=.. tfix=.. sdec=.. s2fix=.. det=..
+       prints  vdoc=<doc> pdoc=<doc> tdoc=<doc> sdoc=<doc> vdisp=<shape> edisp=<shape>,.. rb=<value> fix=.. pp=.. dec=.. tfix=.. sdec=.. s2fix=.. det=..
        (the format is described in harness/src/bin/c17.rs, which prints the same line from the TEXT
         the real crates write)
      txt <text>         not modelled (`skip`): the oracle alone judges it *)
@@ -141,6 +141,8 @@ Definition cmd_val (o : morder) (v0 : tv) : bytes :=
     str " tdoc=" ++ show_doc tdoc ++
     str " sdoc=" ++ show_doc sdoc ++
     str " vdisp=" ++ show_iv (display_value (TTab m)) ++
+    (* Display of every root entry taken by itself (`table["k"].to_string()`), in the map's order *)
+    str " edisp=" ++ join (str ",") (map (fun kv => show_iv (display_value (snd kv))) m) ++
     str " rb=" ++ (match back with Some r => show_tv (TTab r) | None => str "ERR" end) ++
     str " fix=" ++ flag (match back with Some r => same_doc (emit_value_doc false r) plain | None => false end) ++
     str " pp=" ++ flag (same_opt back (decode o pretty)) ++
@@ -159,7 +161,8 @@ Definition cmd_val (o : morder) (v0 : tv) : bytes :=
                            | None => false
                            end) ++
     str " det=ok"
-  | _ => str "not-a-table:err"      (* write_document: Item::Value(v).into_table() fails -> unsupported type *)
+  | v =>                             (* write_document: Item::Value(v).into_table() fails -> unsupported type; *)
+    str "not-a-table:err vdisp=" ++ show_iv (display_value v)          (* Display for Value prints the value itself *)
   end.
 
 Definition run_cmd (name : bytes) (args : list bytes) : bytes :=
